@@ -88,7 +88,7 @@ def extra_rustc(gen, nq, nt, key_of=None):
                     continue
                 nbad += 1
                 if nbad <= 5:
-                    violation(f'rustc-{nbad}', dict(
+                    violation(f'rustc-{gen.__name__[4:].replace("_case", "")}-{nbad}', dict(
                         what='rustc rejects (or warns about) a program in which derive_ex reported no error and every user-written piece is well-typed',
                         property=prop, case=c['id'], item=c.get('item'), scope=c.get('scope'), names=c.get('names'),
                         diagnostics=diags[:6], program=path, finding_key=key,
@@ -482,7 +482,7 @@ PROPS = {
         l1_is_concrete=('tokens',),
         l1_concrete_if=proved_where,
         l1_concrete_text='the where-clause of this impl differs from the documented resolution of bound(..) / default bounds (the model, proved equal to Plan.whereClause for this trait and item kind)',
-        extra=extra_rustc(l2gen.gen_seq_case, 160, 4000),
+        extra=extras(extra_rustc(l2gen.gen_seq_case, 160, 4000), extra_rustc(l2gen.gen_dup_field_case, 120, 2400)),
         level_text='partial: Lean theorems that the where-clause threaded by every builder (Clone, Copy, operators, Default, Debug, Deref, the five comparison traits; structs and enums) is the declarative walk, and that with no bound(..) it consists of the declared predicates plus exactly the used field types mentioning a parameter; L1 compares every where-clause token for token; "applies to an instantiation exactly when" is rustc\'s trait solver: validated by the well-typed grammar of C20, not proved',
     ),
     'C04': dict(
@@ -582,7 +582,7 @@ PROPS.update({
         l1=[('basic', 3000, 100000), ('cmpN', 2000, 50000), ('ext', 24000, 640000)],
         labels=r':(Clone|Debug|Default|PartialEq|Eq|PartialOrd|Ord|Hash)(#1)?$',
         kinds=('panic', 'nondet', 'parse', 'count', 'class'),
-        extra=extras(extra_twins(1200, 24000), extra_rustc(l2gen.gen_lint_plain_case, 160, 3000), extra_programs(l2gen.gen_macro_twin_program, 80, 1600, per=40, what='an item that comes out of a macro_rules! macro is derived differently by the attribute macro, by #[derive(Ex)] and by the standard derive')),
+        extra=extras(extra_twins(1200, 24000), extra_rustc(l2gen.gen_lint_plain_case, 160, 3000), extra_rustc(l2gen.gen_dup_field_case, 120, 2400), extra_programs(l2gen.gen_macro_twin_program, 80, 1600, per=40, what='an item that comes out of a macro_rules! macro is derived differently by the attribute macro, by #[derive(Ex)] and by the standard derive')),
         level_text='Lean corollaries: for attribute-free items the documented rule proved in C01/C06/C07/C10/C11 is the standard derive\'s rule; L2: twin programs (same definition under derive_ex and under derive) over a shape grammar incl. empty enums, unsized tails, raw identifiers, lifetimes, const parameters, parameter defaults; all values / pairs, ten format specs, clone_from over all pairs; the compile-on-every-shape part is decided by rustc, not by a theorem',
     ),
     'C13': dict(
@@ -608,7 +608,7 @@ PROPS.update({
         labels=r'^e\d+:|^impl',
         # the hygiene theorem speaks about every token of every template: any token disagreement breaks its tie to the code
         kinds=('panic', 'nondet', 'parse', 'tokens', 'tokens-body', 'count'),
-        extra=extras(extra_rustc(l2gen.gen_c20_case, 900, 15000), extra_rustc(l2gen.gen_seq_case, 120, 3000), extra_rustc(l2gen.gen_macro_case, 120, 3000), extra_rustc(l2gen.gen_lint_case, 160, 3000),
+        extra=extras(extra_rustc(l2gen.gen_c20_case, 900, 15000), extra_rustc(l2gen.gen_seq_case, 120, 3000), extra_rustc(l2gen.gen_macro_case, 120, 3000), extra_rustc(l2gen.gen_lint_case, 160, 3000), extra_rustc(l2gen.gen_dup_field_case, 120, 2400),
                      # misuse is answered by derive_ex with a message of its own — and by nothing else
                      extra_verdicts(l2gen.gen_c14_error_case, 60, 720)),
         level_text='partial: rustc is the judge. Proved (Lean): the rule set R1-R5 the emitted templates obey (reserved generic names; helper items free of the field type; Self-expanded generics in the free Eq-assertion function, and expand_self leaves no Self behind; parenthesised && operands; by-value scrutinee for arm-less matches) and that derive_ex answers exactly documented misuse with an error of its own (C05). Validated, not proved: completeness of the rule set - a dedicated grammar of well-typed inputs (every trait list x shapes incl. empty / single-variant enums x generics with bounds, defaults, where-clauses mentioning Self x by/key on first / middle / last and generic fields x both entry points) is compiled metadata-only under #![deny(warnings)]; any diagnostic is a violation',
